@@ -598,6 +598,94 @@ CONFIG = [
      'SearchTaskResultsManager.results_collection',
      {'locks': {},
       'cells': {'self._results_collection': 'results_collection'}}),
+    # ---- store / result (C15, C06, C05): the remaining functions
+    ('rsp_init', 'searchkit/results_store.py', 'ResultStoreParallel.__init__',
+     {'locks': STORE_LOCKS,
+      'calls': {'super().__init__': 'base_init', 'mgr.Value': 'mgr_value',
+                'mgr.dict': 'mgr_dict'},
+      'cells': {'self.alloc_pointer': 'alloc_pointer', 'self.data': 'data',
+                'self.value_store': 'value_store',
+                'self.tag_store': 'tag_store',
+                'self.sequence_id_store': 'sequence_id_store',
+                'self._local_store': 'local_store'}}),
+    ('rsp_allocate_next', 'searchkit/results_store.py',
+     'ResultStoreParallel._allocate_next',
+     {'locks': STORE_LOCKS, 'cells': STORE_CELLS,
+      'calls': {'super()._allocate_next': 'base_allocate_next'}}),
+    ('rsp_local', 'searchkit/results_store.py', 'ResultStoreParallel.local',
+     {'locks': STORE_LOCKS,
+      'calls': {'os.getpid': 'getpid', 'ResultStoreSimple': 'new_local_store'},
+      'cells': {'self._local_store': 'local_store',
+                'self.preallocate': 'preallocate_fn',
+                'self.prealloc_block_size': 'bsize'}}),
+    ('rsp_add', 'searchkit/results_store.py', 'ResultStoreParallel.add',
+     {'locks': STORE_LOCKS, 'calls': {'self.local.add': 'local_add'},
+      'cells': dict(STORE_CELLS, **{'self.local': 'local'})}),
+    ('base_sync', 'searchkit/results_store.py', 'ResultStoreBase.sync',
+     {'locks': STORE_LOCKS, 'cells': STORE_CELLS}),
+    # sync once more, this time looking at the worker-LOCAL tables: they are
+    # only read
+    ('sync_local', 'searchkit/results_store.py', 'ResultStoreParallel.sync',
+     {'locks': STORE_LOCKS,
+      'cells': {'self.local.data': 'local_data',
+                'self.local.value_store': 'local_value_store',
+                'self.local.tag_store': 'local_tag_store',
+                'self.local.sequence_id_store': 'local_sequence_id_store',
+                'self.local': 'local'}}),
+    ('result_base_init', 'searchkit/result.py', 'SearchResultBase.__init__',
+     {'locks': {}, 'calls': {'super().__init__': 'base_init'},
+      'cells': {'self.results_store': 'store',
+                'self.linenumber': 'linenumber',
+                'self.section_id': 'section_id'}}),
+    ('result_iter', 'searchkit/result.py', 'SearchResultBase.__iter__',
+     {'locks': {}, 'calls': {'self.results_store.get': 'store_get'},
+      'cells': {'self.data': 'parts', 'self.results_store': 'store'}}),
+    ('minimal_init', 'searchkit/result.py', 'SearchResultMinimal.__init__',
+     {'locks': {},
+      'cells': {'self.data': 'parts', 'self.metadata': 'meta',
+                'self.linenumber': 'linenumber',
+                'self.source_id': 'source_id',
+                'self.section_id': 'section_id',
+                'self.field_names': 'field_names',
+                'self.results_store': 'store'}}),
+    ('minimal_getattr', 'searchkit/result.py',
+     'SearchResultMinimal.__getattr__',
+     {'locks': {}, 'calls': {'self.get': 'get'},
+      'cells': {'self.field_names': 'field_names'}}),
+    ('minimal_tag', 'searchkit/result.py', 'SearchResultMinimal.tag',
+     {'locks': {}, 'calls': {'self.results_store.get': 'store_get'},
+      'cells': {'self.metadata': 'meta', 'self.results_store': 'store'}}),
+    ('minimal_sequence_id', 'searchkit/result.py',
+     'SearchResultMinimal.sequence_id',
+     {'locks': {}, 'calls': {'self.results_store.get': 'store_get'},
+      'cells': {'self.metadata': 'meta', 'self.results_store': 'store'}}),
+    ('register_results_store', 'searchkit/result.py',
+     'SearchResultMinimal.register_results_store',
+     {'locks': {}, 'cells': {'self.results_store': 'store'}}),
+    ('result_init', 'searchkit/result.py', 'SearchResult.__init__',
+     {'locks': {}, 'calls': {'self.store_result': 'store_result'},
+      'cells': {'self.results_store': 'store', 'self.data': 'parts',
+                'self.linenumber': 'linenumber',
+                'self.source_id': 'source_id', 'self.tag': 'tag',
+                'self.section_id': 'section_id',
+                'self.sequence_id': 'sequence_id',
+                'self.field_info': 'field_info',
+                'search_def.tag': 'def_tag',
+                'search_def.sequence_def.id': 'def_sequence_id',
+                'search_def.sequence_def': 'def_sequence',
+                'search_def.field_info': 'def_field_info',
+                'search_def.store_result_contents': 'def_store_contents'}}),
+    ('result_metadata', 'searchkit/result.py', 'SearchResult.metadata',
+     {'locks': {}, 'calls': {'self.results_store.add': 'store_add'},
+      'cells': {'self.tag': 'tag', 'self.sequence_id': 'sequence_id',
+                'self.results_store': 'store'}}),
+    ('result_export', 'searchkit/result.py', 'SearchResult.export',
+     {'locks': {}, 'calls': {'SearchResultMinimal': 'new_minimal'},
+      'cells': {'self.data': 'parts', 'self.metadata': 'metadata_property',
+                'self.linenumber': 'linenumber',
+                'self.source_id': 'source_id',
+                'self.section_id': 'section_id',
+                'self.field_info': 'field_info'}}),
 ]
 
 ARG0 = {'Acq', 'Rel', 'Rd', 'Wr', 'Call', 'Handler', 'RaiseE'}
